@@ -3,7 +3,7 @@ CANON = True
 
 import ast
 
-from .. import compq, pyq
+from .. import boolfn, compq, pyq
 from ..pysrc import dotted, norm
 from .c05 import check_scopefn_params
 
@@ -140,11 +140,17 @@ def check(ctx, src):
                 ctx.check(ok, "SCOPE-PAIR", f"{m.rel}|{m.qual_of(c)}|{norm(c)}", "a created scope is not entered through `with`", m.rel, c.lineno, detail="with-entered")
     fx = sc.func("ScopeFn.__exit__")
     ctx.require(fx is not None, "ScopeFn.__exit__ not found")
-    t = [norm(s) for s in fx.body]
-    ctx.check(len(t) == 3 and t[0] == "self.defined.difference_update(self.nonlocal_vars.keys())" and t[2] == "return super().__exit__(*args)" and
-              "if node.name not in self.defined: self.parent.access(node)" in t[1], "SCOPE-PAIR", f"{SC}|ScopeFn.__exit__|propagate",
-              f"ScopeFn.__exit__ is {t}: names declared nonlocal are not defined here, and every name not defined here must be handed to the parent scope",
-              SC, fx.lineno, witness="(let [x 1] (fn [] x)) closes over the global x; nested (nonlocal x) resolves to the wrong function", detail="difference_update; propagate; super().__exit__")
+    # every reference seen in the function whose name is not defined here is handed to the parent scope: the call
+    # self.parent.access(<ref>) is reached exactly when `<ref>.name not in self.defined` (no further condition)
+    pa = [c for c in pyq.calls(fx) if dotted(c.func) == "self.parent.access"]
+    v, cex = boolfn.equivalent(pa, fx, boolfn.Atoms(D="__.name in self.defined"), lambda e: not e["D"], free_unknown=True)
+    loops = [n for n in pyq.walk_no_nested(fx) if isinstance(n, ast.For) and norm(n.iter) == "self.seen"]
+    in_loop = bool(pa) and all(any(c is x for l_ in loops for x in ast.walk(l_)) for c in pa)
+    ctx.decide_tt("SCOPE-PAIR", f"{SC}|ScopeFn.__exit__|propagate", None if v is None or not pa else (v and in_loop),
+                  f"every name seen but not defined in a function scope must be handed to the parent scope (differs for {cex}; inside the loop over self.seen: {in_loop})",
+                  SC, fx.lineno, witness="(let [x 1] (fn [] x x)): the second reference to x is not renamed to the let's variable", detail="for ref in self.seen: if ref.name not in self.defined: parent.access(ref)")
+    sup = [c for c in pyq.calls(fx) if isinstance(c.func, ast.Attribute) and c.func.attr == "__exit__" and isinstance(c.func.value, ast.Call) and dotted(c.func.value.func) == "super"]
+    ctx.check(bool(sup), "SCOPE-PAIR", f"{SC}|ScopeFn.__exit__|super", "ScopeFn.__exit__ must finish through ScopeBase.__exit__ (which restores the parent scope)", SC, fx.lineno, detail="super().__exit__")
     check_scopefn_params(ctx, comp, "SCOPE-PARAMS")
     from . import c12
     from .. import core
